@@ -9,6 +9,7 @@ import (
 	"sync/atomic"
 
 	"github.com/jdillenkofer/pithos/internal/ioutils"
+	"github.com/jdillenkofer/pithos/internal/verifhook"
 )
 
 // ErrWriteInReadOnlyTransaction is returned by BeginTx when a writable
@@ -106,19 +107,41 @@ func (t *TxController) Commit(ctx context.Context) error {
 	if t.finalized {
 		return nil
 	}
+	preCommitIndex := -1
 	for _, fn := range t.onPreCommit {
+		if verifhook.Enabled {
+			preCommitIndex++
+			if hookErr := verifhook.Point(ctx, "tx.precommit", t.tx, preCommitIndex); hookErr != nil {
+				_ = t.Rollback(ctx)
+				return hookErr
+			}
+		}
 		if hookErr := fn(ctx); hookErr != nil {
 			_ = t.Rollback(ctx)
 			return hookErr
 		}
 	}
+	if verifhook.Enabled {
+		if hookErr := verifhook.Point(ctx, "tx.commit.before_db", t.tx); hookErr != nil {
+			_ = t.Rollback(ctx)
+			return hookErr
+		}
+	}
 	err := t.tx.Commit()
+	if verifhook.Enabled {
+		_ = verifhook.Point(ctx, "tx.commit.db_done", t.tx, err)
+	}
 	if err != nil {
 		_ = t.Rollback(ctx)
 		return err
 	}
 	t.finalized = true
+	afterCommitIndex := -1
 	for _, fn := range t.onAfterCommit {
+		if verifhook.Enabled {
+			afterCommitIndex++
+			_ = verifhook.Point(ctx, "tx.aftercommit", t.tx, afterCommitIndex)
+		}
 		if hookErr := fn(ctx); hookErr != nil {
 			return hookErr
 		}
@@ -130,12 +153,23 @@ func (t *TxController) Rollback(ctx context.Context) error {
 	if !t.ownsFinalization {
 		return nil
 	}
+	if verifhook.Enabled {
+		_ = verifhook.Point(ctx, "tx.rollback.before", t.tx, t.finalized)
+	}
 	err := t.tx.Rollback()
+	if verifhook.Enabled {
+		_ = verifhook.Point(ctx, "tx.rollback.db_done", t.tx, t.finalized)
+	}
 	if t.finalized {
 		return err
 	}
 	t.finalized = true
+	rollbackIndex := -1
 	for _, fn := range t.onRollback {
+		if verifhook.Enabled {
+			rollbackIndex++
+			_ = verifhook.Point(ctx, "tx.onrollback", t.tx, rollbackIndex)
+		}
 		if hookErr := fn(ctx); hookErr != nil && err == nil {
 			err = hookErr
 		}
